@@ -47,6 +47,23 @@ def val(v):
     return deref_all(v)
 
 
+def force(ex, x):
+    """assert the deferred defining facts of a numer()/denom() variable before it is inspected"""
+    if is_z3(x):
+        cons = ex.memo.pop(('deferred', x.get_id()), None)
+        if cons is not None:
+            for k in list(ex.memo):
+                if isinstance(k, tuple) and k[0] == 'deferred' and ex.memo[k] is cons:
+                    del ex.memo[k]
+            for c in cons:
+                ex.assume(c)
+    return x
+
+
+def nv(ex, a):
+    return force(ex, deref_all(a))
+
+
 def freeze(v):
     v = deref_all(v)
     if isinstance(v, (str, int, bool, Fraction)):
@@ -417,8 +434,8 @@ def clone_value(ex, v):
 
 
 def values_eq(ex, x, y):
-    x = val(x)
-    y = val(y)
+    x = force(ex, val(x))
+    y = force(ex, val(y))
     if isinstance(x, F64) or isinstance(y, F64):
         return float_cmp(ex, 'Eq', x, y)
     if is_conc(x) or is_z3(x) or is_conc(y) or is_z3(y):
@@ -500,8 +517,8 @@ def innermost_ref(v):
 
 def cmp_values(ex, a, b):
     """total/partial order of two values -> 'Less'|'Equal'|'Greater' (forks when symbolic)"""
-    x = val(a)
-    y = val(b)
+    x = force(ex, val(a))
+    y = force(ex, val(b))
     if isinstance(x, str) and isinstance(y, str):
         return 'Less' if x < y else ('Equal' if x == y else 'Greater')
     if is_conc(x) or is_z3(x):
@@ -1276,27 +1293,28 @@ def m_numint_from(ex, m, args, callee):
 
 @model(r'^<&NumInt as (Add|Sub|Mul)(<.*>)?>::(add|sub|mul)$')
 def m_numint_arith(ex, m, args, callee):
-    a, b = val(args[0]), val(args[1])
+    a, b = nv(ex, args[0]), nv(ex, args[1])
     return {'add': n_add, 'sub': n_sub, 'mul': n_mul}[m.group(3)](a, b)
 
 
 @model(r'^<&NumInt as (Div|Rem)(<.*>)?>::(div|rem)$')
 def m_numint_div(ex, m, args, callee):
     a, b = val(args[0]), val(args[1])
-    if not ex.branch(b_not(n_eq(b, 0)), 'bigint divisor != 0'):
-        ex.panic('attempt to divide by zero (BigInt)')
     if is_z3(a) and is_z3(b) and m.group(3) == 'div':
         # identity: numer(v) / denom(v) (truncating) = trunc(v)  -- keeps the term linear in v
         qa = ex.memo.get(('partof', a.get_id()))
         qb = ex.memo.get(('partof', b.get_id()))
         if qa and qb and qa[1] == 'n' and qb[1] == 'd' and qa[0].get_id() == qb[0].get_id():
-            return r_trunc(qa[0])
+            return r_trunc(qa[0])     # denom >= 1: never a division by zero
+    a, b = force(ex, a), force(ex, b)
+    if not ex.branch(b_not(n_eq(b, 0)), 'bigint divisor != 0'):
+        ex.panic('attempt to divide by zero (BigInt)')
     return i_tdiv(a, b) if m.group(3) == 'div' else i_trem(a, b)
 
 
 @model(r'^<&NumInt as (BitAnd|BitOr|BitXor)(<.*>)?>::(bitand|bitor|bitxor)$')
 def m_numint_bits(ex, m, args, callee):
-    a, b = val(args[0]), val(args[1])
+    a, b = nv(ex, args[0]), nv(ex, args[1])
     k = m.group(3)
     if is_conc(a) and is_conc(b):
         return {'bitand': a & b, 'bitor': a | b, 'bitxor': a ^ b}[k]
@@ -1308,13 +1326,15 @@ def m_numint_bits(ex, m, args, callee):
 
 @model(r'^<NumInt as Signed>::abs$')
 def m_numint_abs(ex, m, args, callee):
-    return i_abs(val(args[0]))
+    return i_abs(nv(ex, args[0]))
 
 
 @model(r'^NumInt::pow$|^<NumInt as Pow<u32>>::pow$')
 def m_numint_pow(ex, m, args, callee):
     b = val(args[0])
     e = simp(args[1])
+    if not (is_z3(b) and ex.memo.get(('partof', b.get_id()))):
+        force(ex, b)
     if is_conc(e):
         e = int(e)
         if is_conc(b):
@@ -1330,12 +1350,13 @@ def m_numint_pow(ex, m, args, callee):
         if is_z3(r) and is_z3(b):
             ex.memo[('powof', r.get_id())] = (b, e)
         return r
+    force(ex, b)
     return ex.sym_pow(b, e)
 
 
 @model(r'^<NumInt as ToPrimitive>::to_i64$')
 def m_numint_to_i64(ex, m, args, callee):
-    v = val(args[0])
+    v = nv(ex, args[0])
     if ex.branch(in_range(v, 'i64'), 'bigint fits i64'):
         return some(ex, v)
     return none(ex)
@@ -1343,7 +1364,7 @@ def m_numint_to_i64(ex, m, args, callee):
 
 @model(r'^NumInt::bits$')
 def m_numint_bits_len(ex, m, args, callee):
-    v = val(args[0])
+    v = nv(ex, args[0])
     if is_conc(v):
         return abs(v).bit_length()
     r = ex.fresh('bits', 'Int')
@@ -1379,11 +1400,8 @@ def m_numrat_const(ex, m, args, callee):
 @model(r'^NumRat::new$')
 def m_numrat_new(ex, m, args, callee):
     n, d = val(args[0]), val(args[1])
-    if not ex.branch(b_not(n_eq(d, 0)), 'Ratio::new denom != 0'):
-        ex.panic('Ratio::new: denominator == 0')
-    if is_conc(n) and is_conc(d):
-        return Fraction(n, d)
-    # algebraic identity  numer(v)^e / denom(v)^e = v^e  (keeps the term polynomial in v)
+    # algebraic identity  numer(v)^e / denom(v)^e = v^e  (keeps the term polynomial in v; denom >= 1
+    # so the new denominator cannot be zero)
     if is_z3(n) and is_z3(d):
         pn = ex.memo.get(('powof', n.get_id()))
         pd = ex.memo.get(('powof', d.get_id()))
@@ -1396,6 +1414,13 @@ def m_numrat_new(ex, m, args, callee):
                 for _ in range(pn[1]):
                     r = r * v
                 return r
+        for x in (n, d):
+            p = ex.memo.get(('powof', x.get_id()))
+            force(ex, p[0] if p else x)
+    if not ex.branch(b_not(n_eq(d, 0)), 'Ratio::new denom != 0'):
+        ex.panic('Ratio::new: denominator == 0')
+    if is_conc(n) and is_conc(d):
+        return Fraction(n, d)
     return simp(r_div(n, d))
 
 
@@ -1410,14 +1435,17 @@ def rat_parts(ex, v):
         return c
     n = ex.fresh('numer', 'Int')
     d = ex.fresh('denom', 'Int')
-    ex.assume(d >= 1)
-    ex.assume(z3.ToReal(n) == v * z3.ToReal(d))
-    ex.assume((d == 1) == z3.IsInt(v))
-    # n == 1  <=> v>0 and 1/v integral ; n == -1 likewise
-    ex.assume(z3.Implies(n == 1, v > 0))
-    ex.assume(z3.Implies(n == -1, v < 0))
-    ex.assume(z3.Implies(z3.And(v != 0, z3.IsInt(1 / v)), z3.Or(n == 1, n == -1)))
-    ex.assume(z3.Implies(z3.Or(n == 1, n == -1), z3.ToReal(d) * v * z3.ToReal(n) == 1))
+    # defining facts are deferred until n or d is actually inspected (see force()): the common use
+    # numer/denom (truncating) is answered by the identity trunc(n/d) = trunc(v) without them
+    cons = [d >= 1,
+            z3.ToReal(n) == v * z3.ToReal(d),
+            (d == 1) == z3.IsInt(v),
+            z3.Implies(n == 1, v > 0),
+            z3.Implies(n == -1, v < 0),
+            z3.Implies(z3.And(v != 0, z3.IsInt(1 / v)), z3.Or(n == 1, n == -1)),
+            z3.Implies(z3.Or(n == 1, n == -1), z3.ToReal(d) * v * z3.ToReal(n) == 1)]
+    ex.memo[('deferred', n.get_id())] = cons
+    ex.memo[('deferred', d.get_id())] = cons
     ex.memo[key] = (n, d)
     ex.memo[('partof', n.get_id())] = (v, 'n')
     ex.memo[('partof', d.get_id())] = (v, 'd')
